@@ -26,6 +26,8 @@ mod util;
 mod vardct;
 #[cfg(jxl_oxide_verif)]
 pub use vardct::verif_h3;
+#[cfg(jxl_oxide_verif)]
+pub mod verif;
 
 pub use error::{Error, Result};
 pub use features::render_spot_color;
